@@ -2,7 +2,7 @@
 import ast
 
 from ..model import AnalysisError, dotted, unparse
-from ..util import FACTS, FACTS_I, U, enum_paths, walk_no_nested
+from ..util import resolved_text, FACTS, FACTS_I, U, enum_paths, walk_no_nested
 from ..paths import call_attr, call_name
 
 A = 'scales/asynchronous.py'
@@ -193,8 +193,14 @@ def when_all(ctx):
     sets = [c for c in calls(ev, 'set') if U(c.func.value) == ret]
     excs = [c for c in calls(ev, 'set_exception') if U(c.func.value) == ret]
     if has(fs, '%s.exception' % arp, True) or has(fs, '%s.successful()' % arp, False):
+      if has(fs, '%s.ready()' % ret, True):
+        ctx.ob('C17.R1', cb, 'a failure after the result is resolved changes nothing', not excs and not sets, 'resolved result is resolved again with %s' % [U(c) for c in excs + sets], why1)
+        continue
       ok = len(excs) == 1 and U(excs[0].args[0]) == '%s.exception' % arp and not sets
       ctx.ob('C17.R1', cb, 'a failing input fails the result at once', ok, 'failure path resolves with %s' % [U(c) for c in excs + sets], why1)
+      ctx.ob('C17.R1', cb, 'a failing input resolves the result only if it is not resolved yet', has(fs, '%s.ready()' % ret, False),
+             'set_exception on a path that does not test %s.ready(): a second failing input replaces the failure observers already saw' % ret,
+             'WhenAll fails as soon as any input fails -- with that failure; a later failure must not change an already resolved result')
       continue
     if excs:
       ctx.ob('C17.R1', cb, 'set_exception only for a failed input', False, 'set_exception on a path without a failed-input fact', why1)
@@ -220,6 +226,20 @@ def when_all(ctx):
     else:
       ctx.ob('C17.R1', cb, 'success resolution guarded by not ready', not sets, 'ret.set without a not-ready guard', why1)
   ctx.floor('C17.R1', 'WhenAll guarded success paths', n_ok, 2)
+  # zero inputs: "succeeds exactly when all inputs succeed" holds vacuously; no callback will ever run, so the
+  # function itself has to resolve the result
+  empty_ok = False
+  for ev, ex in enum_paths(ctx, f):
+    for i, e in enumerate(ev):
+      if e.kind == 'call' and call_attr(e.node) == 'set' and U(e.node.func.value) == ret:
+        conds = [(resolved_text(ev, j, c.node), bool(c.info)) for j, c in enumerate(ev[:i]) if c.kind == 'cond']
+        n_expr = 'len(%s)' % ars
+        if any((t in ('%s==0' % n_expr, 'not%s' % ars, 'not%s' % n_expr, '%s<1' % n_expr, '0==%s' % n_expr) and v) or
+               (t in ('%s!=0' % n_expr, ars, n_expr, '%s>0' % n_expr, '%s>=1' % n_expr) and not v) for t, v in conds):
+          empty_ok = True
+  ctx.ob('C17.R1', f, 'WhenAll of no inputs succeeds at once (nothing will ever call back)', empty_ok,
+         'no path resolves the result when the input list is empty: WhenAll([]) never completes',
+         'for every number of inputs: with zero inputs all inputs have succeeded, and no rawlink callback exists that could resolve the result later')
 
 
 def continue_with(ctx):
